@@ -258,9 +258,9 @@ def toLab [ScT α] (c : Color α) : Quad α :=
 /-- `From<&Color> for OkLab` (lib.rs:1337). -/
 def toOklab [ScT α] (c : Color α) : Quad α :=
   let p := toXyz c
-  let long := pow (0.8189330101 * p.x + 0.3618667424 * p.y + -0.1288597137 * p.z) (1.0 / 3.0)
-  let medium := pow (0.0329845436 * p.x + 0.9293118715 * p.y + 0.0361456387 * p.z) (1.0 / 3.0)
-  let short := pow (0.0482003018 * p.x + 0.2643662691 * p.y + 0.6338517070 * p.z) (1.0 / 3.0)
+  let long := pow (fmax (0.8189330101 * p.x + 0.3618667424 * p.y + -0.1288597137 * p.z) 0.0) (1.0 / 3.0)
+  let medium := pow (fmax (0.0329845436 * p.x + 0.9293118715 * p.y + 0.0361456387 * p.z) 0.0) (1.0 / 3.0)
+  let short := pow (fmax (0.0482003018 * p.x + 0.2643662691 * p.y + 0.6338517070 * p.z) 0.0) (1.0 / 3.0)
   { x := 0.2104542553 * long + 0.7936177850 * medium + -0.0040720468 * short
     y := 1.9779984951 * long + -2.4285922050 * medium + 0.4505937099 * short
     z := 0.0259040371 * long + 0.7827717662 * medium + -0.8086757660 * short
